@@ -95,7 +95,8 @@ def build(chk):
         for typ in (types if not quick else rng.sample(types, 5) + [65, 0]):
             fl = faults if (not quick or typ in (65, 0)) else [None, rng.choice(faults)]
             for f in fl:
-                for (tt, rt) in ([(25, 75)] if quick else [(25, 75), (5, 25), (75, 150), (150, 75)]):
+                for (tt, rt) in (([(25, 75), (25, 150), (10, 30)] if typ == 65 else [(25, 75)]) if quick
+                                 else [(25, 75), (5, 25), (75, 150), (150, 75)]):
                     if not quick and (tt, rt) != (25, 75) and typ not in (0, 65, 127, 191, 192):
                         continue
                     k += 1
